@@ -18,6 +18,7 @@ package vm
 
 import (
 	"crypto/sha256"
+	"bytes"
 	"errors"
 	"fmt"
 	"math/big"
@@ -82,6 +83,7 @@ type AdminCallback func(app *AdminDBApp,data []byte) error
 type AdminOP struct {
 	callback AdminCallback
 	state StateDB
+	origin common.Address
 }
 
 type AdminDBApp struct {
@@ -107,6 +109,11 @@ func (c *AdminOP)SetState(s StateDB){
 	c.state = s
 }
 
+// SetOrigin tells the contract who signed the transaction that is being executed.
+func (c *AdminOP) SetOrigin(origin common.Address) {
+	c.origin = origin
+}
+
 func (c *AdminOP) Run(input []byte) ([]byte, error) {
 	//[$len + $arg]
 	if len(input) < 32+20 {
@@ -121,6 +128,12 @@ func (c *AdminOP) Run(input []byte) ([]byte, error) {
 		offset = 32 + 20
 	}
 	from := input[32:32+20]
+	// The request is checked against the nonce of the account named in the payload;
+	// that must be the account that signed this transaction, otherwise anybody can
+	// submit (and re-submit) a request in the name of an account whose nonce never moves.
+	if !bytes.Equal(from, c.origin.Bytes()) {
+		return nil, fmt.Errorf("admin op: account in the payload is not the transaction sender")
+	}
 	data := input[32+20:offset]
 	app := &AdminDBApp{
 		c.state,
